@@ -74,6 +74,8 @@ mod temp_built_in_files;
 mod test_runner;
 mod type_defs;
 mod values;
+#[cfg(wilfred_garden_verif)]
+mod verif_hooks;
 mod version;
 mod wrap_in_dbg;
 
@@ -286,6 +288,9 @@ enum CliCommands {
     PlaygroundRun { path: PathBuf },
     /// Start the Language Server Protocol (LSP) server.
     Lsp,
+    /// Verification hooks: answer a batch of JSON requests from stdin.
+    #[cfg(wilfred_garden_verif)]
+    VerifBatch,
     /// Start an nREPL server, listening for clients over TCP.
     Nrepl {
         /// Port to listen on. Use 0 to let the operating system pick
@@ -696,6 +701,8 @@ fn main() {
                 trace_exprs,
             );
         }
+        #[cfg(wilfred_garden_verif)]
+        CliCommands::VerifBatch => verif_hooks::verif_batch(),
         CliCommands::Lsp => {
             init_tracing();
             lsp::run_lsp();
